@@ -43,14 +43,25 @@ def cases(tier, seed):
         nsph = 2 + i % 2
         r = [float(rng.uniform(0.5, 3.0)) / k for _ in range(nsph)]
         sep = float(loguniform(rng, 2.2, 120.0)) * max(r)          # in units of the largest radius: both sides of the 30-radius rule
+        exact = i % 4 == 1
+        if exact:
+            # round numbers exactly ON the rule (largest radius 0.3 / 0.5 / 0.25, separation 9 / 15 / 7.5), as a user would type them:
+            # the product 30 r rounds differently in different units (F121)
+            rr, sep = [(0.3, 9.0), (0.5, 15.0), (0.25, 7.5)][(i // 4) % 3]
+            r = [rr] + [rr * 0.8] * (nsph - 1)
         u = rng.normal(size=3); u /= np.linalg.norm(u)
         mem = []
+        if exact:
+            u = np.array([1.0, 0.0, 0.0])
         for j in range(nsph):
             c = np.array([0.5, 0.3, 20.0 / k + 2 * sep]) + u * sep * j / (nsph - 1)
+            if exact:
+                c = np.array([0.5 + sep * j / (nsph - 1), 0.25, 32.0])
             mem.append({"t": "sphere", "n": scat.gen_index(rng, o, False), "r": r[j], "c": [float(v) for v in c]})
         cfg = {"optics": o, "scat": {"t": "spheres", "members": mem}, "theory": "auto", "det": scat.gen_grid(rng, maxn=4)}
         uu = float(rng.uniform(-4, 4))
-        out.append({"id": "auto-%d" % i, "kind": "auto", "cfg": cfg, "L": 10.0 ** round(uu) if i % 2 else 10.0 ** uu, "sep_over_rmax": sep / max(r), "cost": 6})
+        out.append({"id": "auto-%d" % i, "kind": "auto", "cfg": cfg, "L": ([0.1, 1e-3, 3.0, 10.0][(i // 4) % 4] if exact else (10.0 ** round(uu) if i % 2 else 10.0 ** uu)),
+                    "sep_over_rmax": sep / max(r), "cost": 6})
     return out
 
 
@@ -114,6 +125,18 @@ def run_case(case):
             as_int = _all(ci, case["scaling"], case["ckind"])
             as_float = _all(scat.map_lengths(ci, float), case["scaling"], case["ckind"])
             back = _all(scat.map_lengths(ci, lambda v: v / PER), case["scaling"], case["ckind"])
+            # NumPy's fixed-width integers (what an integer array of nanometres holds) and single-precision floats (F122, F123)
+            if max(abs(v) for v in _lengths(ci)) < 2 ** 31:
+                as_i32 = _all(scat.map_lengths(ci, np.int32), case["scaling"], case["ckind"])
+                for k in as_i32:
+                    if k != "xsec":
+                        resid["int32type_" + k] = relmax(as_i32[k], as_float[k])
+            f32 = scat.map_lengths(cfg, np.float32)
+            as_f32 = _all(f32, case["scaling"], case["ckind"])
+            as_f32ref = _all(scat.map_lengths(f32, float), case["scaling"], case["ckind"])
+            for k in as_f32:
+                if k != "xsec":
+                    resid["float32type_" + k] = relmax(as_f32[k], as_f32ref[k])
             for k in as_int:
                 if k == "xsec":
                     b = as_float[k].values
@@ -125,6 +148,12 @@ def run_case(case):
     th = cfg["theory"]["t"]
     resid = {"%s@%s" % (k, th): v for k, v in resid.items()}
     return {"resid": resid, "flags": {}, "fmax": fnum(float(np.abs(base["field"].values).max())), "int_checked": bool(case.get("intunits") and ok)}
+
+
+def _lengths(cfg):
+    out = []
+    scat.map_lengths(cfg, lambda v: out.append(v) or v)
+    return out
 
 
 def _int_config_valid(ci):
@@ -173,7 +202,9 @@ def judge(case, obs):
         return out
     TOL = _tol(case)
     for k, v in obs["resid"].items():
-        if not v <= TOL:
+        # single-precision lengths carry 6e-8 of relative rounding, which the phase k z (hundreds) multiplies: they must give the same
+        # picture to a part in a thousand (and not NaN); everything else is judged to solver accuracy
+        if not v <= (max(TOL, 1e-3) if k.startswith("float32type_") else TOL):
             out.append({"mech": "units.%s" % k.replace("@", "."),
                         "detail": "%s=%.3e > %.0e; kind=%s L=%.6g theory=%s det=%s" % (k, v, TOL, case["ckind"], case["L"], case["cfg"]["theory"], case["cfg"]["det"]["t"])})
     return out
